@@ -76,12 +76,21 @@ def gen_cases(tier, seed):
                       "flat": rnd.random() < 0.4, "nogzip": rnd.random() < 0.4,
                       "input_max": rnd.choice([None, None, None, 200.0]),
                       "mmap": rnd.random() < 0.2,
+                      # header scaling of integer files, with or without --ignore-scaling
+                      "scal": rnd.choice([None, None, None, [0.5, 3.0], [2.0, 0.0],
+                                          [1.0, 10.0]]),
+                      "ignore": rnd.random() < 0.6,
                       "repeat": rnd.sample(["volume", "scales", "allinone", "convert"],
                                            rnd.randint(1, 2)),
                       "extra_convert": rnd.random() < 0.5, "stats": rnd.random() < 0.5,
                       "orientation": rnd.choice(["RAS", "LPI", "ASR", "PIR"]),
                       "sharding": rnd.choice(["1,1,0", "0,2,1", "2,0,0"]),
                       "vseed": rnd.randrange(2 ** 32)})
+    # directed: header scaling with --ignore-scaling through the all-in-one/step pair
+    for k, dtn in ((0, "uint8"), (1, "int16")):
+        cases[k].update({"route": "pair", "seg": False, "cseg": False, "dtype": dtn,
+                         "scal": [0.5, 3.0], "ignore": True, "input_max": None,
+                         "method": "average" if k else "stride"})
     return cases
 
 
@@ -200,9 +209,25 @@ def run_case(case):
             vol = g.normal(size=shape).astype(dt)
         else:
             vol = g.integers(0, 250, size=shape).astype(dt)
+        if not case["seg"] and dt.kind in "iu" and case["vseed"] % 3 == 0:
+            # stored chunks whose first bytes look like a gzip header (1f 8b): an uncompressed
+            # raw chunk is whatever its voxels are
+            for x0 in (0, 64, 128):
+                if x0 + 1 < shape[0]:
+                    if dt.itemsize == 1:
+                        vol[x0, 0, 0], vol[x0 + 1, 0, 0] = 0x1f, 0x8b
+                    else:
+                        vol[x0, 0, 0] = np.array(0x8b1f, dtype="uint16").view(
+                            dt if dt.itemsize == 2 else "uint16")
+            obs["volumes_with_gzip_magic_at_chunk_corners"] = 1
         aff = np.diag(case["voxel"] + [1.0])
         fn = os.path.join(top, "v.nii" + (".gz" if case["vseed"] % 2 else ""))
-        nibabel.save(nibabel.Nifti1Image(vol, aff), fn)
+        img = nibabel.Nifti1Image(vol, aff)
+        scal = case.get("scal") if (dt.kind in "iu" and not case["seg"]) else None
+        if scal:
+            img.header.set_slope_inter(*scal)
+            obs["files_with_header_scaling"] = 1
+        nibabel.save(img, fn)
         tyenc = []
         if case["seg"] and case["type_opt"]:
             tyenc += ["--type", "segmentation"]
@@ -218,6 +243,9 @@ def run_case(case):
             scaling += ["--input-max", str(case["input_max"])]
         if case["mmap"]:
             scaling += ["--mmap"]
+        if scal and case.get("ignore"):
+            scaling += ["--ignore-scaling"]
+            obs["ignore_scaling_runs"] = 1
         route = case["route"]
         ctx = (f"{route} volume {shape} {dt.name} voxel {case['voxel']} options "
                f"{tyenc + store + down + scaling}")
@@ -386,6 +414,39 @@ def run_case(case):
             if d:
                 v.append({"kind": "repeated-step-changed-the-dataset",
                           "detail": f"{ctx}: after repeating `{log[-1]}`: {d}"})
+        # ---- the all-in-one command asked to convert ANOTHER volume into the directory that
+        # already holds a dataset: it either refuses, or (exit status 0) the directory now
+        # holds every file of the dataset it was asked to produce - info included
+        if route == "pair" and not v and case["vseed"] % 2 == 0:
+            shape2 = [max(8, s // 2 + 3) for s in shape]
+            vol2 = vol[:shape2[0], :shape2[1], :shape2[2]]
+            fn2 = os.path.join(top, "v2.nii")
+            img2 = nibabel.Nifti1Image(np.ascontiguousarray(vol2), aff)
+            if scal:
+                img2.header.set_slope_inter(*scal)
+            nibabel.save(img2, fn2)
+            rc, _ = run("volume_to_precomputed_pyramid", *tyenc, *store, *down, *scaling,
+                        fn2, A, expect_ok=False)
+            obs["other_volume_into_existing_dataset"] = 1
+            if rc == 0:
+                obs["other_volume_accepted"] = 1
+                A2 = os.path.join(top, "A2")
+                run("volume_to_precomputed_pyramid", *tyenc, *store, *down, *scaling, fn2, A2)
+                if not v:
+                    got, infoG, problems = _read(np, A)
+                    want, infoW, _p = _read(np, A2)
+                    if infoG != infoW:
+                        v.append({"kind": "successful-command-did-not-write-the-info-it-was-"
+                                  "asked-to-produce", "detail": f"{ctx}: `{log[-2]}` into a "
+                                  "directory that held another dataset: info sizes "
+                                  f"{[s['size'] for s in infoG['scales']]}, a fresh run "
+                                  f"gives {[s['size'] for s in infoW['scales']]}"})
+                    elif problems or _same(np, want, got):
+                        v.append({"kind": "successful-command-left-unreadable-chunks",
+                                  "detail": f"{ctx}: `{log[-2]}` into a directory that held "
+                                  f"another dataset: {problems[:1] or _same(np, want, got)}"})
+            else:
+                obs["other_volume_refused"] = 1
     except subprocess.TimeoutExpired as exc:
         v.append({"kind": "command-timeout", "detail": f"{ctx}: {exc}"})
     finally:
@@ -412,4 +473,5 @@ def gates(obs, tier):
         and obs.get("child_contract_evaluations", {}).get("downscale", 0) > 100
         and obs.get("child_write_chunk_events", 0) > 100,
         "event_logs_audited": obs.get("event_log_audits", 0) > 50,
+        "header_scaling_ignored_on_request": obs.get("ignore_scaling_runs", 0) >= 2,
     }
